@@ -23,6 +23,9 @@ func (f *Filler) next() uint64 {
 	return z ^ (z >> 31)
 }
 
+// next64 style accessor for callers that need seeds.
+func (f *Filler) Next64() uint64 { return f.next() | 1 }
+
 func (f *Filler) Intn(n int) int { return int(f.next() % uint64(n)) }
 
 var fillStrings = []string{"", "a", "hello", "x<y>&z", "q\"uote\\", "tab\there", "é", "日本", " ", "0123456789abcdef0123456789abcdef", "nul\x00l", "𝄞"}
